@@ -149,3 +149,45 @@ def check_insert_first(ctx: Ctx, rid: str, insf: FuncInfo, leftF: str, rightF: s
                   key=f'{rid}::{insf.short}::append')
     ctx.floor(rid, f'normal paths of {insf.short}', n, 1)
     return first_field
+
+
+def selection_delta_stores(ctx: Ctx):
+    """Interval lengths written already by the selection routine (same iteration, before the evaluation), expressed
+    over the renewal routine's own parameters: {'old': [values], 'new': [values]}."""
+    roles = C.roles_of(ctx)
+    sel, rn = roles.selection, roles.renewal
+    ex = ctx.explorer()
+    item = ctx.ix.cls('SearchDataItem')
+    gx = item.lookup('GetX')
+    new_p, old_p = var(rn.param_names[1]), var(rn.param_names[2])
+    pops = roles.sd_method('GetDataItemWithMaxGlobalR')
+    out = {'old': [], 'new': []}
+    for p in C.normal_paths(ex.explore(sel)):
+        v = p.value
+        pe = C.call_events(p, among=pops)
+        if not isinstance(v, TupleVal) or len(v.items) != 2 or not pe:
+            continue
+        oldv = pe[0].d['result']
+        newv = v.items[0]
+        # the coordinate of the new item
+        newx = None
+        ne = C.new_event_of(p, newv)
+        if ne is None:
+            ce = C.call_event_of_result(p, newv)
+            if ce is not None and ce.d['args']:
+                ne = C.new_event_of(p, ce.d['args'][0])
+        if ne is not None:
+            a = ne.d['args']
+            newx = a[1] if len(a) > 1 else ne.d['kwargs'].get('x')
+        m = {key_of(oldv): key_of(old_p)}
+        if newx is not None:
+            m[key_of(newx)] = key_of(C.getter_value(ex, gx, new_p))
+        for role, tgt in (('old', oldv), ('new', newv)):
+            keys = {key_of(tgt)}
+            if role == 'new' and ne is not None:
+                keys.add(key_of(ne.d['result']))
+            for s_ in p.stores():
+                if s_.d['tkind'] == 'attr' and s_.d['field'] == 'delta' and s_.d['base'] is not None and \
+                        s_.depth == 0 and key_of(s_.d['base']) in keys:
+                    out[role].append((s_, C.subst_val(C.norm_self(ctx, sel, s_.d['value']), m)))
+    return out
